@@ -641,6 +641,11 @@ def scripted_sequences():
          P("/a", b"5", pre="--p-"), P("/b", b"5", pre="--p-"), X("/a", pre="x---"), CM("MOVE", "/a", "/b", pre="x---"),
          CM("MOVE", "/a", "/b", pre="m---"), K("/b", pre="x---"), K("/c", body=b"xx"), X("/b", body=b"xx"),
          X("/b", pre="---#"), X("/b", pre="m-p-")],
+        # stat cache: members of a moved / deleted collection, a collection moved over a cached file
+        [K("/a"), P("/a/b", b"hello"), G("/a/b"), CM("MOVE", "/a/", "/c"), G("/a/b"), G("/c/b"), G("/c/b"),
+         X("/c/"), G("/c/b"), K("/b"), P("/c", b"file-c"), G("/c"), CM("MOVE", "/b/", "/c"), G("/c"),
+         K("/a"), P("/a/c", b"ac"), P("/b", b"file-b"), G("/b"), G("/a/c"), CM("COPY", "/a/", "/b"), G("/b"),
+         G("/b/c"), X("/a"), G("/a/c")],
         # Content-Range
         [P("/a", b"0123456789"), P("/a", b"abc", range="2"), G("/a"), P("/a", b"XYZ", range="10"),
          P("/a", b"XYZ", range="20"), G("/a"), P("/b", b"XYZ", range="0"), P("/a", b"XYZ", range="bad"),
@@ -758,7 +763,7 @@ def seq_line(reqs):
 
 def stream_seq(ctx, bd):
     rng = ctx.rng
-    nseq = 700 if ctx.quick else 7000
+    nseq = 1200 if ctx.quick else 25000
     seqs = scripted_sequences()
     for i in range(nseq):
         seqs.append(gen_sequence(rng, rng.choice([6, 10, 14, 20]), start_counter=i * 100))
